@@ -188,13 +188,13 @@ def run_case(case, ctx):
                 # closed-form root
                 if general:
                     continue
-                try:
-                    root = brentq(lambda m: ref_curves(fam, case["family"], fdata, m, ts, base)[k] - level, 0.02, 9.9,
-                                  xtol=1e-10, rtol=1e-10)
-                    ctx.close("closed_form_root", L, root, 2e-3 * root, f"{sig}/limit_ne_closed_form_root/{names[k]}",
-                              level=level)
-                except ValueError:
-                    pass
+                # the closed-form curve at the returned limit must be at the level.  (Compared in CLs, not in mu:
+                # where the curve is flat - level 0.5 next to the q = 0 plateau - the root is ill-conditioned
+                # in mu and a whole interval solves the equation to rounding.)
+                rc_ = ref_curves(fam, case["family"], fdata, L, ts, base)
+                if rc_ is not None:
+                    ctx.close("closed_form_root", rc_[k], level, 2e-3 * level, f"{sig}/limit_ne_closed_form_root/{names[k]}",
+                              level=level, limit=L)
         else:
             # grid: the limit lies in the cell whose stored results straddle the level
             grid_results = results if results is not None else [
